@@ -209,6 +209,33 @@ pub enum CfRule {
     },
 }
 
+impl CfRule {
+    /// The index into the workbook's dxf table of the format this rule applies, for
+    /// the rule kinds that have one.
+    pub fn dxf_id_mut(&mut self) -> Option<&mut u32> {
+        match self {
+            CfRule::CellIs { dxf_id, .. }
+            | CfRule::Formula { dxf_id, .. }
+            | CfRule::Text { dxf_id, .. }
+            | CfRule::TimePeriod { dxf_id, .. }
+            | CfRule::DuplicateValues { dxf_id, .. }
+            | CfRule::UniqueValues { dxf_id, .. }
+            | CfRule::Blanks { dxf_id, .. }
+            | CfRule::NotBlanks { dxf_id, .. }
+            | CfRule::Errors { dxf_id, .. }
+            | CfRule::NoErrors { dxf_id, .. }
+            | CfRule::AboveAverage { dxf_id, .. }
+            | CfRule::BelowAverage { dxf_id, .. }
+            | CfRule::Top10 { dxf_id, .. }
+            | CfRule::Bottom10 { dxf_id, .. } => Some(dxf_id),
+            CfRule::ColorScale { .. }
+            | CfRule::DataBar { .. }
+            | CfRule::IconSet { .. }
+            | CfRule::IconRating { .. } => None,
+        }
+    }
+}
+
 /// User-facing input type for creating or updating a CF rule.
 /// Mirrors `CfRule` but dxf-based variants carry a `Dxf` format
 /// instead of a `dxf_id` index.  Non-dxf variants (ColorScale, DataBar,
